@@ -437,8 +437,8 @@ fn check_write(ctx: &mut Ctx, max_len: usize) {
 
 fn main() {
     let run = Run::from_args("C19");
-    let bound = run.pick(5, 8);
-    let max_len = run.pick(6, 8);
+    let bound = run.pick(5, 12);
+    let max_len = run.pick(6, 10);
     let mut ctx = Ctx::new();
     let replay = run.replay.as_ref().map(|p| {
         load_replay(p).unwrap_or_else(|e| {
